@@ -4,6 +4,7 @@ From Coq.Strings Require Import Byte.
 From Gopki.Model Require Import Bytes Base64 Pem Der Asn1 Text Algs Glue Pkcs8 Ext Rdn Time X509 Generate HashView Dir Plan Run Ops Cli Merge Validate Current.
 From Gopki.Spec Require Import RegenSpec DirInv MergeSpec ValidateSpec X509Spec ExtSpec AdmissionSpec PolicySpec.
 From Gopki.Proofs Require Import RunProofs ExtProofs PlanProofs WfProofs X509Proofs DerProofs Asn1Proofs TimeRangeProofs RdnProofs GenerateProofs ValidateProofs TimeProofs AlgsProofs Base64Proofs PolicyProofs MergeProofs CliProofs OpsProofs FaultProofs HistoryProofs HashViewProofs Pkcs8Proofs RecoverProofs PemTornProofs AdmissionProofs PemProofs GlueProofs.
+From Gopki.Proofs Require Import WritesProofs.
 Import ListNotations.
 
 (* a second run with the same flags (not generate-all) right after a successful run writes nothing and changes nothing *)
@@ -24,3 +25,14 @@ Theorem C10_no_consent_no_change :
     consent input = false -> cli_sign a b d f input = (CliAborted, d, []).
 Proof. exact no_consent_no_change. Qed.
 Print Assumptions C10_no_consent_no_change.
+
+(* a run - any strategy, any fault - writes only artifacts of planned entities; every other artifact and every configuration
+   (content and modification time) is what it was *)
+Theorem C10_only_planned_artifacts_are_written :
+  forall (d : dir) (s : strat) (fault : option (nat * outcome)) (r : result) (d' : dir) (w : list alias),
+    run cur_csr cur_nilcert d s fault = (r, d', w) ->
+    (forall a, In a w -> exists ch, plan cur_csr (d_ents d) s = Some ch /\ In a ch) /\
+    (forall a, ~ In a w -> file_at (d_ents d') a = file_at (d_ents d) a) /\
+    map (fun e => (e_alias e, e_cfg e, e_cfg_mtime e)) (d_ents d') = map (fun e => (e_alias e, e_cfg e, e_cfg_mtime e)) (d_ents d).
+Proof. exact (run_writes_only_planned cur_csr cur_nilcert). Qed.
+Print Assumptions C10_only_planned_artifacts_are_written.
